@@ -337,6 +337,62 @@ Proof.
 Qed.
 Print Assumptions C07_failed_changes_nothing.
 
+(** * The message level: deadline gate (msg_server.go checkDeadline) and ValidateBasic *)
+
+(* Reading guide.  [mkMsg o d] is the swap message carrying keeper operation [o]
+   with deadline [d] (Unix seconds); [msg_step e t s m] is the msg server's
+   handler at block time [t] (Unix seconds): the deadline gate, then the keeper
+   call; [tx_step] puts ValidateBasic in front, as baseapp does. *)
+
+(* A swap message whose deadline is not after the block time fails -- the code
+   compares blockTime.Unix() >= Deadline, so a deadline EQUAL to the block time
+   has already passed -- and a failed message changes nothing. *)
+Theorem C07_deadline_exceeded_fails :
+  forall e t s m, is_swap_msg (m_op m) = true -> m_deadline m <= t ->
+  msg_step e t s m = Err /\ tx_step' e s (t, m) = s.
+Proof.
+  intros e t s m W D. split; [apply msg_step_deadline_exceeded; assumption|].
+  apply tx_step'_rejected. right. split; assumption.
+Qed.
+Print Assumptions C07_deadline_exceeded_fails.
+
+(* Otherwise the message behaves exactly as the keeper step. *)
+Theorem C07_before_deadline_is_keeper_step :
+  forall e t s m, t < m_deadline m -> msg_step e t s m = step e s (m_op m).
+Proof. exact msg_step_before_deadline. Qed.
+Print Assumptions C07_before_deadline_is_keeper_step.
+
+(* The two cases are exhaustive: the gate decides by the block time alone. *)
+Theorem C07_deadline_gate_cases :
+  forall e t s m,
+  (is_swap_msg (m_op m) = true /\ m_deadline m <= t /\ msg_step e t s m = Err) \/
+  ((is_swap_msg (m_op m) = false \/ t < m_deadline m) /\ msg_step e t s m = step e s (m_op m)).
+Proof. exact msg_step_cases. Qed.
+Print Assumptions C07_deadline_gate_cases.
+
+(* A transaction that succeeds passed ValidateBasic, was before its deadline,
+   and did what the keeper call does: every theorem above about a successful
+   [step] is a theorem about successful messages. *)
+Theorem C07_tx_success_is_keeper_success :
+  forall e t s m s' outs, tx_step e t s m = Ok s' outs ->
+  validate_basic m = true /\ (is_swap_msg (m_op m) = true -> t < m_deadline m) /\ step e s (m_op m) = Ok s' outs.
+Proof. exact tx_step_ok. Qed.
+Print Assumptions C07_tx_success_is_keeper_success.
+
+(* A message refused by ValidateBasic changes nothing. *)
+Theorem C07_tx_invalid_changes_nothing :
+  forall e t s m, validate_basic m = false -> tx_step e t s m = Err /\ tx_step' e s (t, m) = s.
+Proof.
+  intros e t s m V. split; [unfold tx_step; rewrite V; reflexivity|apply tx_step'_rejected; left; exact V].
+Qed.
+Print Assumptions C07_tx_invalid_changes_nothing.
+
+(* The keeper invariant holds after every history of transactions at any block times. *)
+Theorem C07_invariant_all_tx_histories :
+  forall e l s, Inv e s -> Inv e (tx_run e s l).
+Proof. intros e l s. exact (tx_run_inv e l s). Qed.
+Print Assumptions C07_invariant_all_tx_histories.
+
 (** * Non-vacuity *)
 
 (* a concrete history: two pools sharing a denom, three accounts; every operation
@@ -364,3 +420,18 @@ Example C07_pool_nonvacuous :
   (exists r, add_liquidity p 10 35 = POk r) /\
   (exists r, remove_liquidity p 7 = POk r).
 Proof. cbv zeta. split; [unfold wf; cbn; lia|]. repeat split; eexists; vm_compute; reflexivity. Qed.
+
+(* the deadline gate at block time 1000: deadlines 999 and 1000 fail and change
+   nothing, 1001 goes through and is the keeper step *)
+Example C07_deadline_nonvacuous :
+  let e := mkEnv 3 3 [(0%nat, 2%nat); (1%nat, 2%nat)] 3000000000000000 in
+  let s := mk_state [[1000000; 1000000; 1000000]; [1000000; 1000000; 1000000]; [500; 500; 500]; [0; 0; 0]] in
+  let o := Deposit 0 2 400000 0 100000 0 in
+  class_of (tx_step e 1000 s (mkMsg o 999)) = RErr /\
+  class_of (tx_step e 1000 s (mkMsg o 1000)) = RErr /\
+  class_of (tx_step e 1000 s (mkMsg o 1001)) = ROk /\
+  proj_eqb (project e (tx_step' e s (1000, mkMsg o 1001))) (project e (step' e s o)) = true /\
+  proj_eqb (project e (tx_step' e s (1000, mkMsg o 1000))) (project e s) = true /\
+  class_of (tx_step e 1000 s (mkMsg (Deposit 0 2 0 0 100000 0) 1001)) = RErr /\
+  class_of (step e s (Deposit 0 2 0 0 100000 0)) = RPanic.
+Proof. cbv zeta. repeat split; vm_compute; reflexivity. Qed.
